@@ -1830,6 +1830,10 @@ def seq_method(it, s, name, args, kwargs, node, fr):
         s.items.append(args[0])
         it.record("call", "list.append", [s] + args, {}, node)
         return K(None)
+    if name == "add" and s.kind == "set" and len(args) == 1 and is_pyconst(args[0]) and all(is_pyconst(x) for x in s.items) and it.store_guard() is None:
+        if pyval(args[0]) not in [pyval(x) for x in s.items]:
+            s.items.append(args[0])
+        return K(None)
     if getattr(it, "literal", False) and s.kind == "list":
         # literal-input mode: the list is the list (queue / stack operations are followed exactly)
         idx_ = pyval(args[0]) if args and is_pyconst(args[0]) else None
